@@ -355,6 +355,33 @@ def h_build(c):
     return {'aux_in': aux_in, 'tx': tx.to_cbor().hex(), 'id_tx': tx.id.payload.hex()}
 
 
+def h_outdatum(c):
+    """add_output(out, datum=D2, add_datum_to_witness=True): `out` is a fresh output (route 0), an output object that another
+    builder already locked with datum D1 (route 1: a template re-used), or an output decoded from CBOR that carries the hash
+    of D1 (route 2)"""
+    sk = K.PaymentSigningKey(bytes([7]) * 32)
+    vk = sk.to_verification_key()
+    addr = Address(vk.hash(), network=Network.TESTNET)
+    utxos = [UTxO(txin(10 + i), TransactionOutput(addr, Value(9000000 + 1000000 * i))) for i in range(3)]
+    d1, d2 = mk_datum(c['form1'], c['d1']), mk_datum(c['form2'], c['d2'])
+    out = TransactionOutput(KEY_ADDR, Value(2500000))
+    if c['route'] == 1:
+        TransactionBuilder(Ctx({str(addr): utxos})).add_output(out, datum=d1, add_datum_to_witness=True)
+    elif c['route'] == 2:
+        out = TransactionOutput.from_cbor(TransactionOutput(KEY_ADDR, Value(2500000), datum_hash=datum_hash(d1)).to_cbor())
+    b = TransactionBuilder(Ctx({str(addr): utxos}))
+    b.add_input_address(addr)
+    try:
+        b.add_output(out, datum=d2, add_datum_to_witness=True)
+        tx = b.build_and_sign([sk], change_address=addr)
+    except Exception as e:
+        return {'err': err_kind(e)}
+    import cbor2
+    from pycardano.serialization import default_encoder
+    own = d2.to_cbor() if hasattr(d2, 'to_cbor') else cbor2.dumps(d2, default=default_encoder)
+    return {'tx': tx.to_cbor().hex(), 'd2': own.hex()}
+
+
 def h_key(c):
     cls = getattr(K, c['cls'])
     ext = issubclass(cls, K.ExtendedVerificationKey)
@@ -706,7 +733,7 @@ def h_seq(c):
                 'detail': f'{type(e).__name__}: {e}'[:300], 'tb': traceback.format_exc()[-1200:]}
 
 
-HANDLERS = {'seq': h_seq, 'tx': h_tx, 'datum': h_datum, 'aux': h_aux, 'build': h_build, 'key': h_key, 'native': h_native,
+HANDLERS = {'seq': h_seq, 'tx': h_tx, 'datum': h_datum, 'aux': h_aux, 'build': h_build, 'outdatum': h_outdatum, 'key': h_key, 'native': h_native,
             'plutus': h_plutus, 'addr': h_addr, 'finger': h_finger, 'gate': h_gate}
 
 
